@@ -995,9 +995,9 @@ Proof.
     solve [exact R | apply CmdFacts_refl].
 Qed.
 
-Lemma start_checks_clock s : start_checks s = true -> clock s < end_time s.
+Lemma start_checks_clock s : start_checks s = true -> clock s <= end_time s.
 Proof.
-  unfold start_checks. intros H. apply andb_true_iff in H. destruct H as [_ H]. apply Z.ltb_lt; auto.
+  unfold start_checks. intros H. apply andb_true_iff in H. destruct H as [_ H]. apply Z.leb_le; auto.
 Qed.
 
 Lemma do_start_facts p fuel s b i : CmdFacts s (fst (do_start fuel p s b i)).
@@ -1433,13 +1433,13 @@ Qed.
 (** * initialize; start *)
 
 Lemma start_checks_facts s :
-  start_checks s = true -> running s = false /\ (ps s = PInit \/ ps s = PStarted) /\ clock s < end_time s.
+  start_checks s = true -> running s = false /\ (ps s = PInit \/ ps s = PStarted) /\ clock s <= end_time s.
 Proof.
   unfold start_checks. intros H. repeat (apply andb_true_iff in H; destruct H as [H ?]).
   repeat split.
   - destruct (running s); auto; discriminate.
   - destruct (ps s); auto; discriminate.
-  - apply Z.ltb_lt; auto.
+  - apply Z.leb_le; auto.
 Qed.
 
 Lemma run_loop_ps p fuel s :
